@@ -1,4 +1,5 @@
-import IgVerif.Lemmas.Merge
+import IgVerif.Lemmas.MergeOrder
+import IgVerif.Schema
 /-!
 # C13 — loading several libraries yields one consistent database
 -/
@@ -44,6 +45,35 @@ theorem c13_merge_commutes (sch : Schema) (fc : FlagCfg) (a b : List Val)
     (ha : hasFlag sch.type a fc.typeFullyDefined = true) (hb : hasFlag sch.type b fc.typeFullyDefined = false) :
     mergeWith sch fc a b = mergeWith sch fc b a := by
   rw [c13_fully_defined_wins sch fc a b ha hb, c13_defined_replaces_forward sch fc b a hb]
+
+/-- the flag values read from the current headers satisfy what the order-independence proof
+needs: `F_global` is a single bit and differs from `F_fully_defined` -/
+theorem c13_flag_facts : MergeCtx schema flagCfg := ⟨⟨0, by decide⟩, by decide⟩
+
+/-- **Any load order, any number of libraries.** One library defines a type fully (`d`), any
+number of others only refer to it (`fs`): in whatever order their records are merged the
+result is the same record — `d`, global iff one of the contributions was global. -/
+theorem c13_merge_order_independent (d : List Val) (fs l1 l2 : List (List Val))
+    (h1 : l1.Perm (d :: fs)) (h2 : l2.Perm (d :: fs))
+    (hd : hasFlag schema.type d flagCfg.typeFullyDefined = true) (hdf : HasFlags schema.type d)
+    (hfs : ∀ f ∈ fs, hasFlag schema.type f flagCfg.typeFullyDefined = false ∧ HasFlags schema.type f) :
+    mergeAll schema flagCfg l1 = mergeAll schema flagCfg l2 ∧
+    mergeAll schema flagCfg l1 =
+      some (canon schema flagCfg d ((d :: fs).any (fun f => hasFlag schema.type f flagCfg.typeGlobal))) := by
+  have e1 := mergeAll_perm schema flagCfg c13_flag_facts d fs l1 h1 hd hdf hfs
+  have e2 := mergeAll_perm schema flagCfg c13_flag_facts d fs l2 h2 hd hdf hfs
+  exact ⟨e1.trans e2.symm, e1⟩
+
+/-! non-vacuity: a definer and a global forward reference, merged in both orders -/
+def sampleDef : List Val := setVal schema.type (defaultRec schema.type) "_flags" (.a (.int 8192))
+def sampleFwd : List Val := setVal schema.type (defaultRec schema.type) "_flags" (.a (.int 1))
+example : hasFlag schema.type sampleDef flagCfg.typeFullyDefined = true ∧
+    hasFlag schema.type sampleFwd flagCfg.typeFullyDefined = false ∧
+    hasFlag schema.type sampleFwd flagCfg.typeGlobal = true ∧
+    mergeAll schema flagCfg [sampleFwd, sampleDef] = mergeAll schema flagCfg [sampleDef, sampleFwd] ∧
+    mergeAll schema flagCfg [sampleFwd, sampleDef] = some (orFlag schema.type sampleDef 1) := by decide
+example : HasFlags schema.type sampleDef ∧ HasFlags schema.type sampleFwd :=
+  ⟨⟨8192, by decide, by decide⟩, ⟨1, by decide, by decide⟩⟩
 
 /-- **Compiled-in modules get their own contiguous range**: a module with `n > 0`
 indices receives `[next, next+n)` and the next free index moves up by `n`. -/
